@@ -392,7 +392,7 @@ var frameRe = regexp.MustCompile(`(?m)^(github\.com/ozontech/seq-db/[^\s(]+(?:\(
 
 // crashFrame extracts the innermost seq-db function of the first goroutine in a crash dump (stable part of a signature).
 func crashFrame(tail string) string {
-	if m := regexp.MustCompile(`"msg":"([^"]{0,80})`).FindStringSubmatch(tail); m != nil && strings.Contains(tail, `"level":"fatal"`) {
+	if m := regexp.MustCompile(`"(?:msg|message)":"([^"]{0,80})`).FindStringSubmatch(tail); m != nil && strings.Contains(tail, `"level":"fatal"`) {
 		return "fatal:" + m[1]
 	}
 	for _, m := range frameRe.FindAllStringSubmatch(tail, -1) {
